@@ -253,6 +253,18 @@ func (pc *pconn) faultFor(dir string, frame int) *Fault {
 	return nil
 }
 
+// httpBodyFault returns a pending fault with Pos "httpbody" for this connection (plain HTTP responses).
+func (pc *pconn) httpBodyFault() *Fault {
+	pc.p.mu.Lock()
+	defer pc.p.mu.Unlock()
+	for _, f := range pc.p.faults {
+		if atomic.LoadInt32(&f.fired) == 0 && f.Pos == "httpbody" && (f.Conn < 0 || f.Conn == pc.idx) {
+			return f
+		}
+	}
+	return nil
+}
+
 func (pc *pconn) fire(f *Fault) {
 	if !atomic.CompareAndSwapInt32(&f.fired, 0, 1) {
 		return
@@ -328,7 +340,15 @@ func (pc *pconn) pump(dir string, src, dst net.Conn) {
 		return
 	}
 	if dir == "s2c" && !bytes.Contains(hs.Bytes(), []byte(" 101 ")) {
-		// not upgraded (plain HTTP through the proxy): blind copy
+		// not upgraded (plain HTTP through the proxy): blind copy, except for a fault that truncates a response
+		// body: the headers of the response went out above (hs); forward a few body bytes, then cut
+		if f := pc.httpBodyFault(); f != nil {
+			few := make([]byte, 5)
+			n, _ := io.ReadFull(br, few)
+			pc.write(dst, few[:n])
+			pc.fire(f)
+			return
+		}
 		io.Copy(dst, br)
 		return
 	}
